@@ -1,5 +1,5 @@
 """C07 -- observe client: notifications in freshness order, termination signalled once."""
-from vf.api import Obligation
+from vf.api import Obligation, pick
 
 META = {
     "explanation": "The real Request/ClientObservation state machine is fed notification sequences whose Observe values (full "
@@ -162,6 +162,12 @@ def mk_stack(con_notif, term_kind):
                 CLK.now = 0
                 S.deliver(Message(code=CONTENT, _mtype=ACK, _mid=mid, _token=tok, observe=v0, payload=b"0").encode())
                 assert rq.response.done() and rq.response.result().payload == b"0"
+                # a later, unrelated request to another endpoint stays untouched by whatever happens to the observation
+                other = Message(code=GET, uri_path=["z"], _mtype=NON)
+                other.remote = S.remote(stack.R2)
+                rq_other = S.ctx.request(other, handle_blockwise=False)
+                loop.run_ready()
+                S.tr.sent[:] = [x for x in S.tr.sent if x[1][0] != stack.R2[0]]
                 nmid = [100]
 
                 def notif(vbytes, payload, code=CONTENT):
@@ -224,6 +230,88 @@ def mk_stack(con_notif, term_kind):
                 assert [(o.mtype, o.mid) for o in out if o.mtype == ACK] == [(ACK, m) for m in acks_expected]
                 assert [(o.mtype, o.mid) for o in out if o.mtype == RST] == [(RST, m) for m in rsts_expected]
                 assert all(o.mtype in (ACK, RST) and int(o.code) == 0 for o in out)
+                assert not rq_other.response.done(), "unrelated request to another endpoint was completed / failed"
+                assert loop.exceptions == []
+            assert not reach, "reach"
+        return h
+    return make
+
+
+def mk_asynciter(handle_blockwise):
+    """the `async for` consumer interface: bursts of events within one loop iteration, termination at any position"""
+    def make(reach):
+        import asyncio
+        import logging
+        from vf.simloop import SimLoop
+        from vf import stack
+        import aiocoap.protocol as proto
+        from aiocoap.message import Message
+        from aiocoap import error
+        from aiocoap.numbers.types import CON, NON, ACK
+        from aiocoap.numbers.codes import GET, CONTENT, NOT_FOUND
+        stack.configure()
+        CLK = Clock()
+        proto.time = CLK
+
+        def h(b1: int, b2: int, term: int) -> None:
+            assert 1 <= b1 <= 3 and 0 <= b2 <= 2 and 0 <= term <= 2
+            n1, n2 = pick([0, 1, 2, 3], b1), pick([0, 1, 2], b2)
+            tk = pick([0, 1, 2], term)
+            with SimLoop() as loop:
+                S = stack.StackS(loop)
+                req = Message(code=GET, uri_path=["o"], observe=0, _mtype=CON)
+                req.remote = S.remote(stack.R0)
+                rq = S.ctx.request(req, handle_blockwise=handle_blockwise)
+                got, ended = [], []
+
+                async def consume():
+                    async for m in rq.observation:
+                        got.append(m.payload)
+                    ended.append(True)
+                ct = loop.create_task(consume())
+                loop.run_ready()
+                first = S.out()[0]
+                S.deliver(Message(code=CONTENT, _mtype=ACK, _mid=first.mid, _token=first.token, observe=10, payload=b"0").encode())
+                assert rq.response.done()
+                serial = [10]
+                mid = [300]
+
+                def burst(n, final=None):
+                    """n notifications (and optionally a terminating response) arrive within one loop iteration"""
+                    datas = []
+                    for _ in range(n):
+                        serial[0] += 1
+                        mid[0] += 1
+                        datas.append(Message(code=CONTENT, _mtype=NON, _mid=mid[0], _token=first.token, observe=serial[0], payload=b"n%d" % serial[0]).encode())
+                    if final is not None:
+                        mid[0] += 1
+                        datas.append(Message(code=final, _mtype=NON, _mid=mid[0], _token=first.token, payload=b"final").encode())
+                    import socket
+                    for d in datas:
+                        S.mint.datagram_msg_received(d, [(socket.IPPROTO_IPV6, socket.IPV6_PKTINFO, stack.pktinfo(False))], 0, stack.R0)
+                    loop.run_ready()
+                burst(n1)
+                assert got and got[-1] == b"n%d" % serial[0], "the freshest notification of a burst must reach the consumer"
+                burst(n2, final=(None, CONTENT, NOT_FOUND)[tk])
+                if tk == 0:
+                    assert not ended and not ct.done()
+                    if n2:
+                        assert got[-1] == b"n%d" % serial[0]
+                else:
+                    # the iteration ends (it must not hang).  The iterator is documented as a lossy queue: within one burst a
+                    # later event may replace an earlier one, so the terminating response is required to reach the consumer only
+                    # when nothing else arrived in the same burst; otherwise the last item is the final response or the freshest
+                    # notification of that burst
+                    assert ended == [True] and ct.done() and ct.exception() is None, "consumer hangs after the observation ended"
+                    if n2 == 0:
+                        assert got[-1] == b"final"
+                    else:
+                        assert got[-1] in (b"final", b"n%d" % serial[0], b"n%d" % (serial[0] - n2 + 1))
+                assert all(g in [b"n%d" % k for k in range(11, serial[0] + 1)] + [b"final"] for g in got)
+                ct.cancel()
+                loop.run_ready()
+                for hnd in list(loop.pending_timers()):
+                    hnd.cancel()
                 assert loop.exceptions == []
             assert not reach, "reach"
         return h
@@ -249,4 +337,9 @@ def obligations(tier):
             concrete={"notification type": "CON" if con else "NON", "notifications": 2,
                       "terminator kind": ["none", "2.05 without Observe", "4.04", "transport error"][tk]},
             stubs=["protocol.time -> clock stub", "SimLoop", "FakeDatagramTransport", "random stubs"]))
+    for hb in (False, True):
+        obs.append(Obligation("async-iteration-%s" % ("blockwise" if hb else "plain"), mk_asynciter(hb), 250 if tier == "quick" else 900,
+                              functions=FUNCS + ["protocol.ClientObservation.__aiter__/_Iterator", "protocol.BlockwiseRequest._run_observation"],
+                              symbolic={"size of first burst": "1..3", "size of second burst": "0..2", "terminator in second burst": "none / 2.05 without Observe / 4.04"},
+                              concrete={"through BlockwiseRequest": hb}, stubs=["SimLoop", "FakeDatagramTransport", "clock stub"]))
     return obs
